@@ -95,7 +95,7 @@ def run(tier, seed):
         cur.append(ev); size += sz
     if cur: chunks.append(cur)
     def val(c):
-        return tlc.validate_trace("TreeInv", os.path.join(VERIF, "spec", "TreeInv.cfg"), c, max_rejects=60, timeout=1500, heap="6g")
+        return tlc.validate_trace("TreeInv", os.path.join(VERIF, "spec", "TreeInv.cfg"), c, max_rejects=60, timeout=1500, heap="6g", independent=True)
     with concurrent.futures.ThreadPoolExecutor(4) as ex:
         outs = list(ex.map(val, chunks))
     acc = sum(o[0] for o in outs); rejected = sum((o[1] for o in outs), []); states = sum(o[2] for o in outs)
